@@ -73,6 +73,9 @@ class Unevaluable(Exception):
     pass
 
 
+STATS = {"pre_ok": 0}  # calls of run_contract whose inputs satisfied the precondition (the others check nothing)
+
+
 def _eval(node, env):
     node = api.lazy_expr(node)
     code = compile(ast.fix_missing_locations(ast.Expression(body=node)), "<clause>", "eval")
@@ -101,6 +104,7 @@ def run_contract(contract, inputs, seconds=None):
                 return None
     except (Unevaluable, api.PreFail):
         return None
+    STATS["pre_ok"] += 1
     # old() values and raise conditions are functions of the pre-state: evaluate before the call
     rewritten = []
     for (txt, node) in list(contract.ensures) + list(getattr(contract, 'bounded_ensures', [])):
@@ -166,6 +170,7 @@ def bounded_contract(contract, seed, seconds=10.0, budget=20000):
     rng = random.Random(seed)
     t0 = time.time()
     n = 0
+    pre0 = STATS["pre_ok"]
     while time.time() - t0 < seconds and n < budget:
         inputs = {}
         for name, t in zip(names, types):
@@ -180,8 +185,12 @@ def bounded_contract(contract, seed, seconds=10.0, budget=20000):
         n += 1
         f = run_contract(contract, inputs)
         if f is not None:
-            return {"ran": True, "evaluations": n, "fail": f}
-    return {"ran": True, "evaluations": n, "fail": None, "domain": "seeded random inputs from the sidecar generators, %d evaluations" % n}
+            return {"ran": True, "evaluations": STATS["pre_ok"] - pre0, "fail": f}
+    ok = STATS["pre_ok"] - pre0
+    if ok == 0:
+        return {"ran": False, "reason": "none of %d generated inputs satisfied the precondition" % n, "evaluations": 0, "fail": None}
+    return {"ran": True, "evaluations": ok, "fail": None,
+            "domain": "seeded random inputs from the sidecar generators: %d generated, %d satisfied the precondition and were checked" % (n, ok)}
 
 
 # ---------------------------------------------------------------------------------------------------------
